@@ -99,6 +99,25 @@ theorem sideFs_toList : ∀ (fs : Fields), SideFs fs → ∀ f ∈ fs.toList, Ma
     · exact ⟨h.1.1, h.2.1.1, h.2.2.1⟩
     · exact sideFs_toList r ⟨h.1.2, h.2.1.2, h.2.2.2⟩ f hf
 
+mutual
+theorem frag_noEnum : ∀ (t : Ty), frag t = true → noEnum t = true
+  | .prim _, _ | .unit, _ | .unitStruct _, _ => by simp [noEnum]
+  | .option t, h | .newtype _ t, h | .vec t, h => by
+    simp only [frag] at h; simpa [noEnum] using frag_noEnum t h
+  | .map k v, h => by
+    simp only [frag, Bool.and_eq_true] at h
+    simp [noEnum, frag_noEnum k h.1, frag_noEnum v h.2]
+  | .struct _ fs, h => by
+    simp only [frag, Bool.and_eq_true] at h
+    simpa [noEnum] using fragFields_noEnum fs h.2
+  | .tuple _, h | .tupleStruct _ _, h | .enum _ _, h => by simp [frag] at h
+theorem fragFields_noEnum : ∀ (fs : TFields), fragFields fs = true → noEnumFields fs = true
+  | .nil, _ => by simp [noEnumFields]
+  | .cons _ _ t r, h => by
+    simp only [fragFields, Bool.and_eq_true] at h
+    simp [noEnumFields, frag_noEnum t h.1.1, fragFields_noEnum r h.2]
+end
+
 /-! ### the value side -/
 
 mutual
